@@ -1,16 +1,14 @@
 (* C17 — In-memory and etcd metadata stores behave the same.
    Only statements closed by [exact]; proofs live in proofs/MetaStoreBisim.v.
-   Both models are of the code with fixes/C16-*.patch and fixes/C17-store-parity.patch.
+   Both models are of the code with the C16 / C17 / C22 fixes (committed in /repo).
 
-   Status: PARTIAL.  The full statement ([C17_statement]: every operation sequence,
-   every name) is refuted for names the etcd key layout cannot represent (open finding
-   etcd-name-with-slash-or-empty).  On the complement the bisimulation is machine-checked
-   for the fragment [op_in_fragment] (12 of the 16 Store operations); DeleteTopic,
-   UpdateTopicConfig, ListConsumerOffsets and ListConsumerGroups are covered by the
-   differential correspondence check (same generated sequences on both real stores and
-   both models) but their preservation proof is not done. *)
+   The unrestricted statement ([C17_statement]: every operation sequence, every name) is
+   refuted for names the etcd key layout cannot represent (open finding
+   etcd-name-with-slash-or-empty).  On the complement of that class ([op_ok]: group and
+   topic names non-empty and '/'-free, partitions in int32 as the Go types demand) the
+   bisimulation is proved for all sixteen Store operations. *)
 From Coq Require Import String.
-From KS Require Import lib.Base lib.Strings model.MetaStore proofs.MetaStoreProofs proofs.MetaStoreKeys proofs.MetaStoreBisim.
+From KS Require Import lib.Base lib.Strings model.MetaStore proofs.MetaStoreProofs proofs.MetaStoreKeys proofs.MetaStoreParse proofs.MetaStoreBisim.
 Open Scope Z_scope.
 
 Definition C17_statement : Prop :=
@@ -23,19 +21,49 @@ Proof.
 Qed.
 Print Assumptions C17_refuted.
 
-(* the relation holds initially and every operation of the fragment preserves it and
-   answers the same in both stores *)
+(* the relation holds initially and EVERY Store operation preserves it and answers the same
+   in both stores *)
 Theorem C17_bisimulation_step : forall im et o,
-  R im et -> op_in_fragment o ->
+  R im et -> op_ok o ->
   snd (im_step im o) = snd (et_step et o) /\ R (fst (im_step im o)) (fst (et_step et o)).
 Proof. exact step_preserves. Qed.
 Print Assumptions C17_bisimulation_step.
 
 Theorem C17_bisimulation : forall brokers ops,
-  Forall op_in_fragment ops ->
+  Forall op_ok ops ->
   snd (im_run (im_new brokers) ops) = snd (et_run (et_new brokers) ops).
 Proof. intros b ops H. exact (proj1 (run_bisim ops _ _ (R_init b) H)). Qed.
 Print Assumptions C17_bisimulation.
+
+(* [op_ok] excludes no Store operation: each of the sixteen methods has admissible calls *)
+Theorem C17_all_operations_covered :
+  forall m, In m [M_Metadata; M_NextOffset; M_UpdateOffsets; M_CommitConsumerOffset; M_FetchConsumerOffset;
+                  M_ListConsumerOffsets; M_PutConsumerGroup; M_FetchConsumerGroup; M_ListConsumerGroups;
+                  M_DeleteConsumerGroup; M_FetchTopicConfig; M_UpdateTopicConfig; M_CreatePartitions;
+                  M_CreateTopic; M_DeleteTopic; M_LookupConsumerOffset] ->
+  exists o, method_of o = m /\ op_ok o.
+Proof.
+  assert (name_ok (lit "t")) as Ht by (split; [discriminate|vm_compute; intuition discriminate]).
+  intros m Hin. cbn [In] in Hin.
+  repeat (destruct Hin as [<-|Hin]); try contradiction.
+  - exists (OMetadata []). split; [reflexivity|exact I].
+  - exists (ONextOffset (lit "t") 0). split; [reflexivity|exact Ht].
+  - exists (OUpdateOffsets (lit "t") 0 0). split; [reflexivity|exact Ht].
+  - exists (OCommit (lit "t") (lit "t") 0 0 []). split; [reflexivity|repeat split; try apply Ht].
+  - exists (OFetchOffset (lit "t") (lit "t") 0). split; [reflexivity|repeat split; try apply Ht].
+  - exists OListOffsets. split; [reflexivity|exact I].
+  - exists (OPutGroup (mkGroup (lit "t") [] [] [] [] 0 0 [])). split; [reflexivity|apply Ht].
+  - exists (OFetchGroup (lit "t")). split; [reflexivity|exact Ht].
+  - exists OListGroups. split; [reflexivity|exact I].
+  - exists (ODeleteGroup (lit "t")). split; [reflexivity|exact Ht].
+  - exists (OFetchCfg (lit "t")). split; [reflexivity|exact Ht].
+  - exists (OUpdateCfg (mkCfg (lit "t") 0 0 0 0 0 [])). split; [reflexivity|exact Ht].
+  - exists (OCreatePartitions (lit "t") 2). split; [reflexivity|exact Ht].
+  - exists (OCreateTopic (lit "t") 1 1). split; [reflexivity|exact I].
+  - exists (ODeleteTopic (lit "t")). split; [reflexivity|exact Ht].
+  - exists (OLookupOffset (lit "t") (lit "t") 0). split; [reflexivity|repeat split; try apply Ht].
+Qed.
+Print Assumptions C17_all_operations_covered.
 
 (* the formerly diverging shapes, now equal on the models of the fixed code, including
    the operations outside the proven fragment (by computation on concrete histories) *)
@@ -50,13 +78,13 @@ Example C17_nonvacuous :
                        OFetchCfg (lit "orders"); OListOffsets; OListGroups; ODeleteTopic (lit "orders");
                        OFetchOffset (lit "g1") (lit "orders") 0; OListOffsets; OCreateTopic (lit "orders") 1 1;
                        ONextOffset (lit "orders") 0] in
-  Forall op_in_fragment ops1 /\
+  Forall op_ok ops2 /\
   nth 3 (snd (im_run (im_new 3) ops1)) (RErr EOther) = RGroup (Some g) /\
   nth 8 (snd (im_run (im_new 3) ops1)) (RErr EOther) = ROffset ENone 10 /\
   snd (im_run (im_new 3) ops2) = snd (et_run (et_new 3) ops2) /\
   nth 17 (snd (et_run (et_new 3) ops2)) (RErr EOther) = RFetched 0 [].
 Proof.
   cbv zeta. split.
-  - repeat constructor; cbn; try (intros H; discriminate); intros H; vm_compute in H; intuition discriminate.
+  - repeat constructor; cbn; try discriminate; try (intros H; vm_compute in H; intuition discriminate).
   - vm_compute. repeat split; reflexivity.
 Qed.
